@@ -264,6 +264,10 @@ class SpecEval:
                     return V(INT, z3.Length(v.t))
                 if v.ty.kind == "tuple":
                     return vint(len(v.items))
+                if is_dictlike(v.ty) or v.ty.kind == "dictv":
+                    return V(INT, ops.card(ops.dict_parts(getattr(v, "_st", None) or self.st, v)[0][0]))
+                if v.ty.kind in ("set", "setv"):
+                    return V(INT, ops.card(ops.set_parts(getattr(v, "_st", None) or self.st, v)))
                 s = self.seq(v)
                 return V(INT, z3.IntVal(0) if s.t is None else z3.Length(s.t))
             raise Unsupported("spec function %r" % name)
@@ -498,6 +502,13 @@ def _box(se, a, kw):
 @specfun("content")
 def _content(se, a, kw):
     return se.deref(a[0])
+
+
+@specfun("arg_exprs")
+def _arg_exprs(se, a, kw):
+    """the argument expressions of a def/block node (uninterpreted sequence of strings)"""
+    f = ops.UF("arg_exprs", z3.IntSort(), z3.BoolSort(), z3.SeqSort(z3.StringSort()))
+    return V(SEQ(STR), f(a[0].t, a[1].t))
 
 
 @specfun("count")
@@ -738,6 +749,11 @@ SPECFUNS["pdirname"] = _uf_spec("pdirname", ["str"], "str")
 SPECFUNS["re_sub"] = _uf_spec("re_sub", ["str", "str", "str"], "str")
 SPECFUNS["str_replace_all"] = _uf_spec("str_replace_all", ["str", "str", "str"], "str")
 SPECFUNS["str_lstrip"] = _uf_spec("str_lstrip", ["str", "str"], "str")
+
+
+@specfun("attrgetter_of")
+def _attrgetter_of(se, a, kw):
+    return V(ANY, ops.UF("attrgetter_of", z3.StringSort(), z3.IntSort())(a[0].t))
 
 
 @specfun("G_str")
